@@ -74,9 +74,29 @@ impl<'env> Context<'env> {
 //@ |    ensures r is Ok <==> self.d() <= self.recursion_limit,
 //@ |        r is Err ==> r->Err_0.kind == ErrorKind::InvalidOperation,
 
+//# ob name=ctx_clear verus_fn=Context::clear fn=vm::context::Context::clear kind=complete stmt="clear() (a macro context going back to the pool) leaves no frame and no inherited depth behind; the limit is kept"
+//@ extract file=minijinja/src/vm/context.rs item=fn:Context::clear
+//@ |    ensures final(self).stack@.len() == 0, final(self).outer_stack_depth == 0, final(self).recursion_limit == old(self).recursion_limit,
+
+//# ob name=ctx_reset_with_frame verus_fn=Context::reset_with_frame fn=vm::context::Context::reset_with_frame kind=complete stmt="reset_with_frame(f) (a pooled macro context being reused) yields exactly what a fresh context with that frame has: one frame, no inherited depth - whatever the context held before, so a stale depth can neither leak into the next invocation nor hide the caller's"
+//@ extract file=minijinja/src/vm/context.rs item=fn:Context::reset_with_frame
+//@ |    ensures final(self).stack@ == seq![frame], final(self).outer_stack_depth == 0, final(self).recursion_limit == old(self).recursion_limit,
+//@ |        final(self).d() == 1,
+
 //# ob name=ctx_stack_depth verus_fn=Context::stack_depth fn=vm::context::Context::stack_depth kind=complete stmt="stack_depth() is the number of own frames"
 //@ extract file=minijinja/src/vm/context.rs item=fn:Context::stack_depth ret=r
 //@ |    ensures r == self.stack@.len(),
+}
+
+//# ob name=ctx_macro_entry verus_fn=macro_entry fn=vm::context::Context kind=complete stmt="client of the contracts, the macro-entry sequence of the VM on a recycled context: reset_with_frame(f) then incr_depth(caller depth + cost) succeeds exactly when 1 + caller depth + cost <= limit, and then the context's depth is exactly that - a recycled context accounts for the caller's depth like a fresh one; on failure nothing was added"
+pub fn macro_entry<'env>(ctx: &mut Context<'env>, f: Frame<'env>, caller_depth: usize, cost: usize) -> (r: Result<(), Error>)
+    requires 1 <= old(ctx).recursion_limit <= 100000, caller_depth <= 100000, cost <= 100,
+    ensures r is Ok <==> 1 + caller_depth + cost <= old(ctx).recursion_limit,
+        r is Ok ==> final(ctx).d() == 1 + caller_depth + cost && final(ctx).wf(),
+        final(ctx).recursion_limit == old(ctx).recursion_limit,
+{
+    ctx.reset_with_frame(f);
+    ctx.incr_depth(caller_depth + cost)
 }
 
 // ---- composition: any chain of successful recursive entries is bounded by the limit (uses contracts only)
